@@ -34,6 +34,8 @@ type vfDumpPkt struct {
 type vfDumpCall struct {
 	A string      `json:"a"`
 	P []vfDumpPkt `json:"p"`
+	// probe only (never generated): the caller overwrites the elements of its []rtcp.Packet slice once Write has returned
+	Reuse bool `json:"reuse,omitempty"`
 }
 
 type vfDumpScript struct {
@@ -52,7 +54,7 @@ type vfDumpScript struct {
 const (
 	vfDumpSentinel = uint32(0xFFFFFFF0)
 	vfDumpSSRC     = uint32(0x1234)
-	vfDumpWatchdog = 10 * time.Second
+	vfDumpWatchdog = 5 * time.Second
 )
 
 func vfDescRTP(h *rtp.Header, payload []byte) vfDumpPkt {
@@ -123,9 +125,9 @@ func vfIsFb(p rtcp.Packet) bool {
 
 // vfDumpRec collects what the dumper does: formatter invocations (d) and stream writes (wr), in one order.
 type vfDumpRec struct {
-	mu   sync.Mutex
-	d    []vfM
-	wr   []vfM
+	mu    sync.Mutex
+	d     []vfM
+	wr    []vfM
 	holds []chan struct{} // one per call that reaches the logger goroutine, in call order
 	sent  chan struct{}
 }
@@ -282,23 +284,30 @@ func TestVerifDumpExec(t *testing.T) {
 	in := vfLoad(t)
 	out := vfOut(t)
 	defer out.Close()
+	blocked := 0
 	for _, raw := range in {
 		var sc vfDumpScript
 		if err := json.Unmarshal(raw, &sc); err != nil {
 			t.Fatalf("VERIF-INFRA bad script: %v", err)
 		}
-		vfRunDump(t, &sc, out)
+		if !vfRunDump(t, &sc, out) {
+			// the logger did not come back within the watchdog ("blocked" event, never accepted by the trace
+			// specification); two such scripts are evidence enough, the rest of the batch is not executed
+			if blocked++; blocked >= 2 {
+				break
+			}
+		}
 	}
 }
 
 // vfDumpPort is one direction of traffic through the interceptor under test.
 type vfDumpPort struct {
 	rtp  func(h *rtp.Header, payload []byte) (fwd []vfDumpPkt, same bool) // one RTP packet; scribbles afterwards
-	rtcp func(pkts []rtcp.Packet) (fwd []vfDumpPkt, same bool, post func() []vfDumpPkt)
+	rtcp func(pkts []rtcp.Packet, reuse bool) (fwd []vfDumpPkt, same bool, post func() []vfDumpPkt)
 }
 
 //nolint:gocyclo,cyclop,maintidx
-func vfRunDump(t *testing.T, sc *vfDumpScript, out *vfWriter) {
+func vfRunDump(t *testing.T, sc *vfDumpScript, out *vfWriter) bool {
 	t.Helper()
 	rec := &vfDumpRec{sent: make(chan struct{}, 1)}
 	reset := vfM{"a": "reset", "dir": sc.Dir, "rf": sc.Rf, "cf": sc.Cf, "pf": sc.Pf, "rfmt": sc.Rfmt, "cfmt": sc.Cfmt}
@@ -317,7 +326,7 @@ func vfRunDump(t *testing.T, sc *vfDumpScript, out *vfWriter) {
 			out.Emit(reset)
 			out.Emit(vfM{"a": "ctorerr", "err": err.Error()})
 
-			return
+			return true
 		}
 		ic = i
 		// the next writer in the chain: records what it is handed, at the time it is handed it
@@ -353,7 +362,7 @@ func vfRunDump(t *testing.T, sc *vfDumpScript, out *vfWriter) {
 
 			return gotRTP, true
 		}
-		port.rtcp = func(pkts []rtcp.Packet) ([]vfDumpPkt, bool, func() []vfDumpPkt) {
+		port.rtcp = func(pkts []rtcp.Packet, reuse bool) ([]vfDumpPkt, bool, func() []vfDumpPkt) {
 			orig := append([]rtcp.Packet{}, pkts...)
 			gotRTCP = nil
 			if _, err := cw.Write(pkts, interceptor.Attributes{}); err != nil {
@@ -364,7 +373,16 @@ func vfRunDump(t *testing.T, sc *vfDumpScript, out *vfWriter) {
 				same = gotRTCP[i] == orig[i] // the very objects, in order
 			}
 
-			return vfDescRTCPs(gotRTCP), same, func() []vfDumpPkt { return vfDescRTCPs(pkts) }
+			fwd := vfDescRTCPs(gotRTCP)
+			if reuse {
+				for i := range pkts {
+					pkts[i] = &rtcp.ReceiverReport{SSRC: 0xBAD}
+				}
+
+				return fwd, same, func() []vfDumpPkt { return vfDescRTCPs(orig) }
+			}
+
+			return fwd, same, func() []vfDumpPkt { return vfDescRTCPs(pkts) }
 		}
 	} else {
 		f, err := NewReceiverInterceptor(opts...)
@@ -376,7 +394,7 @@ func vfRunDump(t *testing.T, sc *vfDumpScript, out *vfWriter) {
 			out.Emit(reset)
 			out.Emit(vfM{"a": "ctorerr", "err": err.Error()})
 
-			return
+			return true
 		}
 		ic = i
 		var next []byte // what the transport delivers to the next Read
@@ -415,7 +433,7 @@ func vfRunDump(t *testing.T, sc *vfDumpScript, out *vfWriter) {
 
 			return fwd, same
 		}
-		port.rtcp = func(pkts []rtcp.Packet) ([]vfDumpPkt, bool, func() []vfDumpPkt) {
+		port.rtcp = func(pkts []rtcp.Packet, _ bool) ([]vfDumpPkt, bool, func() []vfDumpPkt) {
 			raw, err := rtcp.Marshal(pkts)
 			if err != nil {
 				t.Fatalf("VERIF-INFRA marshal rtcp: %v", err)
@@ -487,7 +505,7 @@ func vfRunDump(t *testing.T, sc *vfDumpScript, out *vfWriter) {
 					fwd, same = append(fwd, f), append(same, s)
 					posts = append(posts, func() []vfDumpPkt { return []vfDumpPkt{} })
 				case "rtcp":
-					f, s, post := port.rtcp(vfBuildRTCP(c.P))
+					f, s, post := port.rtcp(vfBuildRTCP(c.P), c.Reuse)
 					fwd, same, posts = append(fwd, f), append(same, s), append(posts, post)
 				default:
 					t.Fatalf("VERIF-INFRA unknown call %q", c.A)
@@ -527,11 +545,13 @@ func vfRunDump(t *testing.T, sc *vfDumpScript, out *vfWriter) {
 		}
 	}
 	if dead {
-		return
+		return false
 	}
 	if !closed {
 		t.Fatalf("VERIF-INFRA script does not end with close")
 	}
 	d, wr := rec.take()
 	out.Emit(vfM{"a": "end", "d": d, "wr": wr})
+
+	return true
 }
